@@ -18,14 +18,17 @@ import time
 TLA_CP = "/opt/veriftools/tla/tla2tools.jar:/opt/veriftools/tla/CommunityModules-deps.jar"
 
 # family -> (module, which configs exist)
-LIVE_PROPS = ("C01", "C20", "C04", "C05", "C06", "C07", "C08", "C09", "C10", "C11", "C12", "C19")
+LIVE_PROPS = ("C01", "C20", "C04", "C05", "C06", "C07", "C08", "C09", "C10", "C11", "C12", "C13", "C14", "C15", "C19")
 
 FAMILY_MODULE = {
     "join": "JoinLike", "try_join": "JoinLike",
     "race": "Race", "race_ok": "Race",
     "merge": "Merge", "zip": "Zip", "chain": "Chain", "wait_until": "WaitUntil",
-    "future_group": "Groups", "stream_group": "Groups",
+    "future_group": "Groups", "stream_group": "Groups", "co": "CoStream",
 }
+# modules whose behaviours leave an order to third-party code (FuturesUnordered): replays are checked by TLC trace
+# validation against the L2 spec instead of an event-by-event comparison with the exported behaviour
+INEXACT = {"CoStream"}
 
 # per module: names of the quick / thorough cfg files (without directory)
 MODULE_CFGS = {
@@ -34,7 +37,7 @@ MODULE_CFGS = {
                      live_quick="MC_JoinLike_liveq.cfg", live_thorough="MC_JoinLike_live.cfg",
                      mc="MC_JoinLike.tla"),
 }
-for _m in ("Race", "Merge", "Zip", "Chain", "WaitUntil", "Groups"):
+for _m in ("Race", "Merge", "Zip", "Chain", "WaitUntil", "Groups", "CoStream"):
     MODULE_CFGS[_m] = dict(mc_quick="MC_%s_quick.cfg" % _m, mc_thorough="MC_%s_thorough.cfg" % _m,
                            gen_quick="MC_%s_genq.cfg" % _m, gen_thorough="MC_%s_gen.cfg" % _m,
                            live_quick="MC_%s_liveq.cfg" % _m, live_thorough="MC_%s_live.cfg" % _m,
@@ -113,6 +116,8 @@ def containers_for(cfg):
         # L2Env-based modules name the containers they stand for; families without a readiness record
         # (the caller's waker is passed through) behave identically in all three builds
         builds = ["std", "alloc", "none"] if not cfg.get("rdy") else (["std"] if cfg.get("sub") else ["alloc", "none"])
+        if fam == "co":
+            builds = [cfg["feat"]]
         out = []
         for b in builds:
             for cont in cfg["conts"]:
@@ -140,7 +145,7 @@ def containers_for(cfg):
 
 
 def hist_to_vector(cfg, hist, vid, fam, cont, n):
-    nch = n
+    nch = max(n, 1) if fam == "co" else n
     for e in hist:
         if "c" in e and e["e"] in ("cpoll", "insert") and e["c"] >= nch:
             nch = e["c"] + 1
@@ -182,7 +187,15 @@ def hist_to_vector(cfg, hist, vid, fam, cont, n):
         elif k == "repoll":
             cmds.append(["repoll"])
         prev = e
-    return dict(id=vid, fam=fam, cont=cont, n=n, scripts=scripts, cmds=cmds, x=cfg.get("x", -1))
+    v = dict(id=vid, fam=fam, cont=cont, n=n, scripts=scripts, cmds=cmds, x=cfg.get("x", -1))
+    if fam == "co":
+        v["stack"] = [a["k"] if a["k"] in ("map", "enumerate") else [a["k"], a["n"]] for a in cfg["stack"]]
+        v["term"] = cfg["term"]
+        v["limit"] = cfg.get("limit", 0)
+        v["src"] = cont
+        if cont == "vec":
+            v["scripts"][0]["steps"] = []      # the items of a Vec source are handed in at construction
+    return v
 
 
 SKIP_REAL = {"new", "built", "end"}
@@ -325,7 +338,18 @@ def run_for_property(prop, tier, seed, plan, env):
             ndiff = 0
             firstd = None
             nrun = 0
-            for rid, lines in split_runs(trace):
+            if mod in INEXACT:
+                import tracel2
+                truns, _sk = tracel2.convert([trace])
+                tv = tracel2.validate(truns, WORK, tag, workers=2)
+                for _m, r in tv.items():
+                    nrun += r["runs"]
+                    ndiff += r["rejected"]
+                    if r["first_rejections"] and firstd is None:
+                        firstd = dict(id=r["first_rejections"][0]["id"], pos=r["first_rejections"][0]["matched"],
+                                      predicted="(any L2 behaviour)", real=r["first_rejections"][0]["next_event"])
+            else:
+              for rid, lines in split_runs(trace):
                 nrun += 1
                 d = first_diff(pred.get(rid, []), norm_real(lines))
                 if d is not None:
@@ -344,7 +368,9 @@ def run_for_property(prop, tier, seed, plan, env):
                 if firstd is not None and len(res["drift"]) < 5:
                     res["drift"].append(dict(module=mod, **firstd))
         res["replayed"] += total
-        res["conformance"][mod] = dict(vectors=total, identical_to_prediction=total - drifted, drift=drifted)
+        res["conformance"][mod] = dict(vectors=total, identical_to_prediction=total - drifted, drift=drifted,
+                                       criterion="accepted by TLC trace validation against the L2 spec" if mod in INEXACT
+                                       else "recorded events identical to the exported L2 behaviour")
         if drifted:
             print("MODEL-DRIFT family=%s vectors=%d first_diff=%s" % (mod, drifted, json.dumps(res["drift"][0])[:600]))
     return res
